@@ -38,13 +38,13 @@ def recur_rules(ctx, crate):
     ok = r2.returns and ('emitted',) in r2.facts
     ctx.report(clause, RECUR + ":vertex-cell-never-discarded", ok, "when is_in_list(..) is true every path pushes the cell or visits its four children" if ok else "a cell containing a polygon vertex can be dropped", at=b.span, kind="N")
     # list passed unchanged to the children
-    sc = [ev for ev in evs if ev.callee == RECUR and len(ev.site) == 2]
+    sc = [ev for ev in evs if ev.callee == RECUR]
     li = names.index("sorted_poly_vertices_hash"); pi = names.index("poly")
     same = len(sc) == 8 and all(ev.args[li] == param("sorted_poly_vertices_hash") and ev.args[pi] == param("poly") for ev in sc)
     ctx.report(clause, RECUR + ":same-list-and-polygon-passed-down", same, "%d self-calls pass the same list and polygon" % len(sc), at=b.span, kind="N")
     # full only if n == 4
     nv = [ev for ev in evs if ev.callee == NVIP]
-    pushes = [ev for ev in evs if ev.callee == PUSH and len(ev.site) == 2]
+    pushes = [ev for ev in evs if ev.callee == PUSH]
     full = [p for p in pushes if p.args[3] == C('bool', 1)]
     okf = len(nv) == 1 and len(full) == 1
     if okf:
@@ -57,18 +57,62 @@ def recur_rules(ctx, crate):
     ctx.report(clause, RECUR + ":other-pushes-partial", all(p.args[3] == C('bool', 0) for p in other) and len(other) == 2, "%d further push sites, all with flag false" % len(other), at=b.span, kind="N")
 
 
+def counting_loop(crate, e, r, cev, fs):
+    """n is a counter that starts at 0, is incremented by one exactly under `contains(..) == true`, in a
+    loop that visits every element of the array of the four corners and is left only when the
+    slice iterator is exhausted"""
+    n = r.ret[3][0]
+    if n[0] != 'phi': return False, "count is not a loop-carried value: %s" % show(n)[:60]
+    ops = e.phi_ops.get(n, set())
+    def is_step(o): return o[0] == 'op' and o[1] == 'add' and ((o[3] == n and o[4] == C('u8', 1)) or (o[4] == n and o[3] == C('u8', 1)))
+    rest = [o for o in ops if not is_step(o) and o != n]
+    # constant-folded first rounds {0, 1} are the same counter
+    if not any(is_step(o) for o in ops) or not rest or not all(o[0] == 'c' and o[1] == 'u8' for o in rest) or sorted(o[2] for o in rest) != list(range(len(rest))):
+        return False, "count merges %s (expected 0 and count + 1)" % sorted(show(o)[:30] for o in ops)
+    # every increment happens under contains == true (hook facts at the addition)
+    bad = [loc for v, loc, facts in e._c12_steps if not (('b', cev.ret, True) in facts or ('eqc', cev.ret, 1, True) in facts)]
+    if not e._c12_steps or bad: return False, "%d increments, %d not guarded by the contains() result" % (len(e._c12_steps), len(bad))
+    # the tested point is the element handed out by the slice iterator over the whole corner array
+    v = cev.args[1]
+    nxt = [ev for ev in e.events.values() if ev.callee and "slice::Iter<" in ev.callee and ev.callee.endswith("as std::iter::Iterator>::next") and ev.ret is not None and any(x == ev.ret for x in walk(v))]
+    if len(nxt) != 1 or not nxt[0].argvals or nxt[0].argvals[0] is None: return False, "contains() is not applied to the element of a slice iterator: %s" % show(v)[:60]
+    its = [ev for ev in e.events.values() if ev.callee and ev.callee.endswith("slice::<impl [T]>::iter") and ev.argvals and ev.argvals[0] is not None and derives(e, nxt[0].argvals[0], ev.ret)]
+    if len(its) != 1: return False, "iterator does not come from one .iter() call"
+    arr = its[0].argvals[0]
+    if arr[0] != 'agg' or list(arr[3]) != [f.ret for f in fs]: return False, "iterated array is not the array of the four corners"
+    # no adaptor between iter() and next(): every call on the way is iter/into_iter/next
+    adapt = [ev.callee for ev in e.events.values() if ev.callee and ev.ret is not None and ev is not its[0] and ev is not nxt[0] and derives(e, nxt[0].argvals[0], ev.ret) and derives(e, ev.ret, its[0].ret) and "into_iter" not in ev.callee]
+    if adapt: return False, "iterator adaptor %s between iter() and next()" % adapt[0]
+    # left only on None
+    none = any(f[0] == 'eqc' and f[1] == ('discr', nxt[0].ret) and f[2] == 0 and f[3] for f in r.facts)
+    if not none: return False, "the loop can be left before the iterator is exhausted"
+    return True, "n = #{v in corners : poly.contains(v)}"
+
+
 def count_rule(ctx, crate):
     clause = "vertex-count"
     b = ctx.anchor(crate, NVIP, clause)
     if b is None: return
     contains = find(crate, "sph_geom::Polygon::contains")
-    e = Engine(crate, opaque={contains, "nested::vertices", "sph_geom::coo3d::Coo3D::from_sph_coo"}); r = e.run(NVIP); ctx.functions |= e.visited_fns
+    e = Engine(crate, opaque={contains, "nested::vertices", "sph_geom::coo3d::Coo3D::from_sph_coo"})
+    e._c12_steps = []
+    def vh(v, loc, facts):
+        if v[0] == 'op' and v[1] == 'add' and v[2] == 'u8' and loc[0] == NVIP: e._c12_steps.append((v, loc, set(facts)))
+    e.value_hook = vh
+    r = e.run(NVIP); ctx.functions |= e.visited_fns
     evs = list(e.events.values())
     cs = [ev for ev in evs if ev.callee == contains]
     vt = [ev for ev in evs if ev.callee == "nested::vertices"]
     fs = [ev for ev in evs if ev.callee == "sph_geom::coo3d::Coo3D::from_sph_coo"]
     ok = len(cs) == 4 and len(vt) == 1 and len(fs) == 4 and r.returns and r.ret[0] == 'agg'
     detail = "%d contains, %d vertices(), %d from_sph_coo" % (len(cs), len(vt), len(fs))
+    if len(cs) == 1 and len(vt) == 1 and len(fs) == 4 and r.returns and r.ret[0] == 'agg':
+        # the other idiom: a counting loop   n = 0; for v in corners.iter() { if poly.contains(v) { n += 1 } }
+        okl, why = counting_loop(crate, e, r, cs[0], fs)
+        corner_src = {show(f.args[0]) for f in fs}
+        okl = okl and len(corner_src) == 4 and vt[0].args == [param("depth"), param("hash")] and r.ret[3][1][0] == 'agg' and list(r.ret[3][1][3]) == [f.ret for f in fs]
+        ctx.report(clause, NVIP + ":sum-of-contains-on-4-distinct-corners", okl, detail + "; counting loop: " + why, at=b.span, kind="N")
+        return
     if ok:
         # n = sum of the four contains results (cast to u8)
         n = r.ret[3][0]
